@@ -22,6 +22,7 @@ T = {
 }
 
 PER_PROP = {
+    "C03": ["T-engine", "T-smt", "T-int", "T-vol", "T-aw", "T-str", "T-hex", "T-spec"],
     "C06": ["T-engine", "T-smt", "T-int", "T-dict", "T-schema", "T-json", "T-pickle"],
 }
 
